@@ -324,7 +324,8 @@ func Launch() {
 		"real dispatcher in one process; per function calls in modes {no options, context, context+status, one-way} with scripted implementation results (values, plain and tars errors, " +
 		"response context/status), then concurrent callers sharing the proxies; once per filter configuration (legacy single, middleware chains, pre/post) with recording pass-through filters; " +
 		"plus servers with a worker pool (maxroutine 1 and 2) where scripted slow calls hold every worker while one-way and two-way calls with their own client timeouts (shorter or longer than the wait) " +
-		"queue up; every byte between proxy and server passes a frame-parsing relay whose record of request and response frames is judged at the end (no reply to a one-way request, at most one reply per request, no unsolicited reply); " +
+		"queue up; a large phase where 8-32 concurrent callers share one connection of a fixed interface (byte vectors, strings, nested vectors, struct) with request/response payloads of 63 KiB - 1 MiB that are functions of a per-call tag (recorded as digests); " +
+		"every byte between proxy and server passes a frame-parsing relay whose record of request and response frames is judged at the end (no reply to a one-way request, at most one reply per request, no unsolicited reply); " +
 		"non-trivial = distinct (filters, function, mode, seed)"
 	if res.HarnessError != "" {
 		res.Write(o.Out)
